@@ -29,13 +29,22 @@ pub struct HCall {
     pub call: Call,
 }
 
+/// usize::MAX travels as -1 (TLC integers are 32 bit)
+fn jid(v: &usize) -> Value {
+    if *v == usize::MAX {
+        json!(-1)
+    } else {
+        json!(v)
+    }
+}
+
 impl HCall {
     pub fn to_json(&self) -> Value {
         let mut o = match &self.call {
-            Call::Add { v } => json!({"op":"add","v":v}),
-            Call::Bind { v1, v2, a } => json!({"op":"bind","v1":v1,"v2":v2,"a":a}),
-            Call::Put { v, d } => json!({"op":"put","v":v,"d":d}),
-            Call::Data { v } => json!({"op":"data","v":v}),
+            Call::Add { v } => json!({"op":"add","v":jid(v)}),
+            Call::Bind { v1, v2, a } => json!({"op":"bind","v1":jid(v1),"v2":jid(v2),"a":a}),
+            Call::Put { v, d } => json!({"op":"put","v":jid(v),"d":d}),
+            Call::Data { v } => json!({"op":"data","v":jid(v)}),
             Call::NextId => json!({"op":"next_id"}),
             Call::Clone { dst } => json!({"op":"clone","dst":dst}),
             Call::Reload { dst } => json!({"op":"reload","dst":dst}),
@@ -48,7 +57,11 @@ impl HCall {
         o
     }
     pub fn from_json(v: &Value) -> HCall {
-        let u = |k: &str| v[k].as_u64().unwrap_or_else(|| panic!("missing {k} in {v}")) as usize;
+        let u = |k: &str| match v[k].as_i64() {
+            Some(x) if x < 0 => usize::MAX,
+            Some(x) => x as usize,
+            None => panic!("missing {k} in {v}"),
+        };
         let s = |k: &str| v[k].as_str().unwrap_or_else(|| panic!("missing {k} in {v}")).to_string();
         let call = match v["op"].as_str().unwrap() {
             "add" => Call::Add { v: u("v") },
